@@ -60,7 +60,11 @@ class Ctx:
         if not cfgs:
             return
 
+        cache = os.environ.get('VERIF_FACTS_CACHE')   # self-test / seed-matrix runs only: one extraction per scratch copy and configuration
+
         def one(cfg):
+            if cache and os.path.exists(os.path.join(cache, cfg + '.json')):
+                return cfg, Facts(os.path.join(cache, cfg + '.json'))
             out = os.path.join(WORK, 'facts', '%s.%d.json' % (cfg, os.getpid()))
             t0 = time.time()
             p = subprocess.run([os.path.join(V, 'bin', 'extract.sh'), cfg, out], capture_output=True, text=True)
@@ -68,7 +72,11 @@ class Ctx:
                 raise AnalysisIncomplete('fact extraction failed for config %s: %s' % (cfg, (p.stdout + p.stderr)[-2000:]), cfg)
             f = Facts(out)
             try:
-                os.unlink(out)
+                if cache:
+                    os.makedirs(cache, exist_ok=True)
+                    os.replace(out, os.path.join(cache, cfg + '.json'))
+                else:
+                    os.unlink(out)
             except OSError:
                 pass
             return cfg, f
